@@ -98,6 +98,8 @@ type tblModel struct {
 	writeCache   map[*ssa.Function]*tblWrites
 	directWrites map[*ssa.Function]map[string]bool
 	inlineBusy   map[*types.Func]bool
+	escOnce      sync.Once
+	addrEsc      map[string]string
 
 	looseOnce sync.Once
 	loose     map[*types.TypeName]*Enum // enums declared as an untyped iota block (analyzer/ast.TypeKind)
@@ -414,31 +416,510 @@ func (m *tblModel) resolveKind(im *tblImpl) {
 		return
 	}
 	im.Decl, im.DeclPkg = f.Decl, f.Pkg
+	im.Kinds, im.NonConst = m.constResults(f, 0)
+	if len(im.Kinds) == 0 && im.NonConst == "" {
+		im.NonConst = "no return statement"
+	}
+}
+
+// tblLocalInit: the defining expression of a local variable that is defined
+// once and never assigned, incremented or address-taken in body.
+func tblLocalInit(info *types.Info, body ast.Node, obj types.Object) ast.Expr {
+	var init ast.Expr
+	defs, bad := 0, false
+	ast.Inspect(body, func(n ast.Node) bool {
+		switch x := n.(type) {
+		case *ast.AssignStmt:
+			for i, l := range x.Lhs {
+				id, ok := ast.Unparen(l).(*ast.Ident)
+				if !ok {
+					if tblRootObj(info, l) == obj {
+						bad = true
+					}
+					continue
+				}
+				if info.Defs[id] == obj {
+					defs++
+					if len(x.Lhs) == len(x.Rhs) {
+						init = x.Rhs[i]
+					}
+				} else if info.Uses[id] == obj {
+					bad = true
+				}
+			}
+		case *ast.ValueSpec:
+			for i, nm := range x.Names {
+				if info.Defs[nm] == obj {
+					defs++
+					if len(x.Names) == len(x.Values) {
+						init = x.Values[i]
+					} else {
+						bad = true
+					}
+				}
+			}
+		case *ast.IncDecStmt:
+			if tblRootObj(info, x.X) == obj {
+				bad = true
+			}
+		case *ast.UnaryExpr:
+			if x.Op == token.AND && tblRootObj(info, x.X) == obj {
+				bad = true
+			}
+		case *ast.RangeStmt:
+			for _, e := range []ast.Expr{x.Key, x.Value} {
+				if e != nil && tblRootObj(info, e) == obj {
+					bad = true
+				}
+			}
+		}
+		return true
+	})
+	if bad || defs != 1 {
+		return nil
+	}
+	return init
+}
+
+// tblCommaOkLookup: local v is defined exactly once, by `v, ok := table[k]`, and
+// never written otherwise: the index expression, and whether ok is a named
+// variable (the code can tell a missing key from a stored zero).
+func tblCommaOkLookup(info *types.Info, body ast.Node, obj types.Object) (*ast.IndexExpr, bool) {
+	var ix *ast.IndexExpr
+	okNamed := false
+	defs, bad := 0, false
+	ast.Inspect(body, func(n ast.Node) bool {
+		switch x := n.(type) {
+		case *ast.AssignStmt:
+			for i, l := range x.Lhs {
+				id, ok := ast.Unparen(l).(*ast.Ident)
+				if !ok {
+					if tblRootObj(info, l) == obj {
+						bad = true
+					}
+					continue
+				}
+				if info.Defs[id] == obj {
+					defs++
+					if i == 0 && len(x.Lhs) == 2 && len(x.Rhs) == 1 {
+						if e, ok := ast.Unparen(x.Rhs[0]).(*ast.IndexExpr); ok {
+							ix = e
+							if oid, ok := x.Lhs[1].(*ast.Ident); ok && oid.Name != "_" {
+								okNamed = true
+							}
+						}
+					}
+				} else if info.Uses[id] == obj {
+					bad = true
+				}
+			}
+		case *ast.IncDecStmt:
+			if tblRootObj(info, x.X) == obj {
+				bad = true
+			}
+		case *ast.UnaryExpr:
+			if x.Op == token.AND && tblRootObj(info, x.X) == obj {
+				bad = true
+			}
+		}
+		return true
+	})
+	if bad || defs != 1 {
+		return nil, false
+	}
+	return ix, okNamed
+}
+
+// constResults reduces the single result of f to the enum constants it can
+// return: a constant, a constant expression of the enum type, a local bound
+// once to such a value, or the result of another module function that reduces
+// the same way. nonConst says why the reduction failed.
+func (m *tblModel) constResults(f *tblFn, depth int) (consts []*types.Const, nonConst string) {
+	return m.constResultsAt(f, 0, depth)
+}
+
+// constResultsAt: the same for the idx-th result of a function with several results.
+func (m *tblModel) constResultsAt(f *tblFn, idx, depth int) (consts []*types.Const, nonConst string) {
+	nres := f.Obj.Type().(*types.Signature).Results().Len()
+	info := f.Pkg.TypesInfo
 	seen := map[string]bool{}
+	add := func(k *types.Const) {
+		if !seen[k.Val().ExactString()] {
+			seen[k.Val().ExactString()] = true
+			consts = append(consts, k)
+		}
+	}
+	var reduce func(e ast.Expr, d int) string
+	reduce = func(e ast.Expr, d int) string {
+		e = ast.Unparen(e)
+		if k := ConstOf(info, e); k != nil {
+			add(k)
+			return ""
+		}
+		if tv, ok := info.Types[e]; ok && tv.Value != nil {
+			if en := m.enumOf(tv.Type); en != nil {
+				if ks := en.ByVal[tv.Value.ExactString()]; len(ks) > 0 {
+					add(ks[0])
+					return ""
+				}
+			}
+		}
+		addTable := func(ix *ast.IndexExpr, withZero bool) bool {
+			// (in `v, ok := t[k]` the index expression has a tuple type: take the element type of the table)
+			var et types.Type
+			switch u := types.Unalias(info.TypeOf(ix.X)).Underlying().(type) {
+			case *types.Map:
+				et = u.Elem()
+			case *types.Slice:
+				et = u.Elem()
+			case *types.Array:
+				et = u.Elem()
+			}
+			en := m.enumOf(et)
+			if en == nil {
+				return false
+			}
+			vals, _ := m.tableValues(f, ix.X, 0)
+			if vals == nil {
+				return false
+			}
+			if _, isMap := types.Unalias(info.TypeOf(ix.X)).Underlying().(*types.Map); isMap && withZero {
+				vals["0"] = true
+			}
+			for v := range vals {
+				ks := en.ByVal[v]
+				if len(ks) == 0 {
+					return false
+				}
+				add(ks[0])
+			}
+			return true
+		}
+		if d < 3 {
+			switch x := e.(type) {
+			case *ast.IndexExpr:
+				// a lookup in a constant table (a missing map key yields the zero value)
+				if addTable(x, true) {
+					return ""
+				}
+			case *ast.Ident:
+				if v, ok := info.Uses[x].(*types.Var); ok && !v.IsField() && v.Parent() != nil && v.Pkg() != nil && v.Parent() != v.Pkg().Scope() {
+					if _, isParam := tblParamIndex(f, v); !isParam {
+						if init := tblLocalInit(info, f.Decl.Body, v); init != nil {
+							return reduce(init, d+1)
+						}
+						// v, ok := table[k] with ok tested by the code: only table entries are returned
+						if ix, okVar := tblCommaOkLookup(info, f.Decl.Body, v); ix != nil {
+							if addTable(ix, !okVar) {
+								return ""
+							}
+						}
+					}
+				}
+			case *ast.CallExpr:
+				// a conversion K(expr)
+				if tv, ok := info.Types[x.Fun]; ok && tv.IsType() && len(x.Args) == 1 {
+					return reduce(x.Args[0], d+1)
+				}
+				if fn := CalleeOf(info, x); fn != nil && depth < 2 {
+					if cf := m.fns[fn.Origin()]; cf != nil && cf != f {
+						if sig := fn.Type().(*types.Signature); sig.Results().Len() == 1 {
+							if _, isI := tblSigRecvIface(sig); !isI {
+								ks, why := m.constResults(cf, depth+1)
+								if why == "" && len(ks) > 0 {
+									for _, k := range ks {
+										add(k)
+									}
+									return ""
+								}
+							}
+						}
+					}
+				}
+			}
+		}
+		return "returns the non-constant expression " + exprStr(e)
+	}
 	ast.Inspect(f.Decl.Body, func(n ast.Node) bool {
 		switch x := n.(type) {
 		case *ast.FuncLit:
 			return false
 		case *ast.ReturnStmt:
-			if len(x.Results) != 1 {
-				im.NonConst = "return without a single result"
+			if len(x.Results) != nres || idx >= nres {
+				nonConst = "return without a single result"
 				return true
 			}
-			k := ConstOf(f.Pkg.TypesInfo, x.Results[0])
-			if k == nil {
-				im.NonConst = "returns the non-constant expression " + exprStr(x.Results[0])
-				return true
-			}
-			if !seen[k.Val().ExactString()] {
-				seen[k.Val().ExactString()] = true
-				im.Kinds = append(im.Kinds, k)
+			if why := reduce(x.Results[idx], 0); why != "" {
+				nonConst = why
 			}
 		}
 		return true
 	})
-	if len(im.Kinds) == 0 && im.NonConst == "" {
-		im.NonConst = "no return statement"
+	return consts, nonConst
+}
+
+// tableValues: e denotes a lookup table (map / slice / array) that holds only
+// constants and is never modified after it is built: a variable whose only
+// definition is a composite literal with constant values, or the result of a
+// function that returns such a literal or a local map/slice it fills with
+// `t[k] = Const` / `t = append(t, Const)`. Returns the set of constant values
+// (by value); why != "" explains a table that could not be reduced.
+func (m *tblModel) tableValues(f *tblFn, e ast.Expr, depth int) (map[string]bool, string) {
+	info := f.Pkg.TypesInfo
+	e = ast.Unparen(e)
+	if depth > 5 {
+		return nil, ""
 	}
+	litValues := func(info *types.Info, cl *ast.CompositeLit) (map[string]bool, string) {
+		set := map[string]bool{}
+		for _, el := range cl.Elts {
+			v := el
+			if kv, ok := el.(*ast.KeyValueExpr); ok {
+				v = kv.Value
+			}
+			tv, ok := info.Types[v]
+			if !ok || tv.Value == nil {
+				return nil, "table entry " + exprStr(v) + " is not a constant"
+			}
+			set[tv.Value.ExactString()] = true
+		}
+		if len(set) == 0 {
+			return nil, "empty table"
+		}
+		return set, ""
+	}
+	switch x := e.(type) {
+	case *ast.CompositeLit:
+		return litValues(info, x)
+	case *ast.CallExpr:
+		fn := CalleeOf(info, x)
+		if fn == nil {
+			return nil, ""
+		}
+		cf := m.fns[fn.Origin()]
+		if cf == nil || cf == f {
+			return nil, ""
+		}
+		if sig := fn.Type().(*types.Signature); sig.Results().Len() != 1 {
+			return nil, ""
+		}
+		var out map[string]bool
+		why := ""
+		ast.Inspect(cf.Decl.Body, func(n ast.Node) bool {
+			switch y := n.(type) {
+			case *ast.FuncLit:
+				return false
+			case *ast.ReturnStmt:
+				if len(y.Results) != 1 {
+					why = "table builder " + cf.name() + " has a bare return"
+					return true
+				}
+				set, w := m.tableValues(cf, y.Results[0], depth+1)
+				if set == nil {
+					if w == "" {
+						w = "table builder " + cf.name() + " returns " + exprStr(y.Results[0])
+					}
+					why = w
+					return true
+				}
+				if out == nil {
+					out = map[string]bool{}
+				}
+				for v := range set {
+					out[v] = true
+				}
+			}
+			return true
+		})
+		if why != "" {
+			return nil, why
+		}
+		return out, ""
+	case *ast.Ident, *ast.SelectorExpr:
+		id := tblSelOf(x)
+		v, ok := info.Uses[id].(*types.Var)
+		if !ok || v.IsField() || v.Pkg() == nil || !strings.HasPrefix(v.Pkg().Path(), ModPath) {
+			return nil, ""
+		}
+		switch types.Unalias(v.Type()).Underlying().(type) {
+		case *types.Map, *types.Slice, *types.Array:
+		default:
+			return nil, ""
+		}
+		// every definition of / store into the variable, in the whole module for a package-level
+		// variable, in the function for a local
+		var scopes []struct {
+			info *types.Info
+			root ast.Node
+			fn   *tblFn
+		}
+		if v.Parent() == v.Pkg().Scope() {
+			for _, p := range m.c.All {
+				for _, file := range p.Syntax {
+					scopes = append(scopes, struct {
+						info *types.Info
+						root ast.Node
+						fn   *tblFn
+					}{p.TypesInfo, file, nil})
+				}
+			}
+		} else {
+			if _, isParam := tblParamIndex(f, v); isParam {
+				return nil, ""
+			}
+			scopes = append(scopes, struct {
+				info *types.Info
+				root ast.Node
+				fn   *tblFn
+			}{info, f.Decl.Body, f})
+		}
+		set := map[string]bool{}
+		why := ""
+		defs := 0
+		fail := func(w string) {
+			if why == "" {
+				why = "table " + v.Name() + ": " + w
+			}
+		}
+		addConst := func(inf *types.Info, val ast.Expr) {
+			tv, ok := inf.Types[val]
+			if !ok || tv.Value == nil {
+				fail("stored value " + exprStr(val) + " is not a constant")
+				return
+			}
+			set[tv.Value.ExactString()] = true
+		}
+		initBy := func(inf *types.Info, in *tblFn, val ast.Expr) {
+			defs++
+			val = ast.Unparen(val)
+			if call, ok := val.(*ast.CallExpr); ok {
+				if bid, ok := ast.Unparen(call.Fun).(*ast.Ident); ok {
+					if b, isB := inf.Uses[bid].(*types.Builtin); isB && b.Name() == "make" {
+						return // empty table, filled by the stores below
+					}
+				}
+			}
+			host := in
+			if host == nil {
+				host = f
+			}
+			if host.Pkg.TypesInfo != inf {
+				// an initialiser in another package: evaluate it with that package's type information
+				for _, p := range m.c.All {
+					if p.TypesInfo == inf {
+						host = &tblFn{Pkg: p, Decl: host.Decl, Obj: host.Obj}
+					}
+				}
+			}
+			s2, w := m.tableValues(host, val, depth+1)
+			if s2 == nil {
+				if w == "" {
+					w = "initialised by " + exprStr(val)
+				}
+				fail(w)
+				return
+			}
+			for k := range s2 {
+				set[k] = true
+			}
+		}
+		for _, sc := range scopes {
+			inf := sc.info
+			ast.Inspect(sc.root, func(n ast.Node) bool {
+				switch y := n.(type) {
+				case *ast.ValueSpec:
+					for i, nm := range y.Names {
+						if inf.Defs[nm] == types.Object(v) {
+							if len(y.Values) == len(y.Names) {
+								initBy(inf, sc.fn, y.Values[i])
+							} else if len(y.Values) == 0 {
+								defs++ // nil table filled by stores
+							} else {
+								fail("initialised from a multi-value expression")
+							}
+						}
+					}
+				case *ast.AssignStmt:
+					for i, l := range y.Lhs {
+						l = ast.Unparen(l)
+						if lid := tblSelOf(l); lid != nil {
+							if _, isIdx := l.(*ast.IndexExpr); !isIdx && (inf.Defs[lid] == types.Object(v) || inf.Uses[lid] == types.Object(v)) {
+								if len(y.Lhs) != len(y.Rhs) {
+									fail("assigned from a multi-value expression")
+									continue
+								}
+								// t = append(t, C…)
+								if call, ok := ast.Unparen(y.Rhs[i]).(*ast.CallExpr); ok {
+									if bid, ok := ast.Unparen(call.Fun).(*ast.Ident); ok {
+										if b, isB := inf.Uses[bid].(*types.Builtin); isB && b.Name() == "append" && len(call.Args) >= 1 && !call.Ellipsis.IsValid() {
+											if aid := tblSelOf(call.Args[0]); aid != nil && inf.Uses[aid] == types.Object(v) {
+												for _, a := range call.Args[1:] {
+													addConst(inf, a)
+												}
+												continue
+											}
+										}
+									}
+								}
+								initBy(inf, sc.fn, y.Rhs[i])
+							}
+						}
+						if ix, ok := l.(*ast.IndexExpr); ok {
+							if lid := tblSelOf(ix.X); lid != nil && inf.Uses[lid] == types.Object(v) {
+								if len(y.Lhs) == len(y.Rhs) && y.Tok == token.ASSIGN {
+									addConst(inf, y.Rhs[i])
+								} else {
+									fail("element updated in place")
+								}
+							}
+						}
+					}
+				case *ast.IncDecStmt:
+					if r := tblRootObj(inf, y.X); r == types.Object(v) {
+						fail("element updated in place")
+					}
+				case *ast.UnaryExpr:
+					if y.Op == token.AND {
+						if r := tblRootObj(inf, y.X); r == types.Object(v) {
+							fail("address taken")
+						}
+					}
+				case *ast.CallExpr:
+					// the table handed to a function that could modify it (delete, clear, any callee)
+					if bid, ok := ast.Unparen(y.Fun).(*ast.Ident); ok {
+						if b, isB := inf.Uses[bid].(*types.Builtin); isB {
+							switch b.Name() {
+							case "len", "cap", "append", "make":
+								return true
+							}
+						}
+					}
+					for _, a := range y.Args {
+						if aid, ok := ast.Unparen(a).(*ast.Ident); ok && inf.Uses[aid] == types.Object(v) {
+							fail("passed to " + exprStr(y.Fun))
+						}
+					}
+				}
+				return true
+			})
+		}
+		if why != "" {
+			return nil, why
+		}
+		if defs == 0 || len(set) == 0 {
+			return nil, ""
+		}
+		return set, ""
+	}
+	return nil, ""
+}
+
+func tblSigRecvIface(sig *types.Signature) (*types.Interface, bool) {
+	if sig.Recv() == nil {
+		return nil, false
+	}
+	it, ok := types.Unalias(sig.Recv().Type()).Underlying().(*types.Interface)
+	return it, ok
 }
 
 // ifaceOf returns the Kind-interface model of a static type, or nil.
@@ -599,8 +1080,8 @@ func tblParents(root ast.Node) map[ast.Node]ast.Node {
 	return par
 }
 
-// tblIsPanicStmt: panic(...) or a call of a module function whose body
-// unconditionally ends in panic (e.g. an abort helper).
+// tblIsPanicStmt: panic(...) or a call of a module function that never returns
+// (every way through its body ends in a panic, e.g. an abort helper).
 func (m *tblModel) tblIsPanicStmt(info *types.Info, s ast.Stmt) bool {
 	if IsPanicCall(info, s) {
 		return true
@@ -609,24 +1090,107 @@ func (m *tblModel) tblIsPanicStmt(info *types.Info, s ast.Stmt) bool {
 	if !ok {
 		return false
 	}
-	call, ok := es.X.(*ast.CallExpr)
+	call, ok := ast.Unparen(es.X).(*ast.CallExpr)
 	if !ok {
 		return false
 	}
 	if fn := CalleeOf(info, call); fn != nil {
-		if f := m.fns[fn.Origin()]; f != nil && len(f.Decl.Body.List) > 0 {
-			straight := true
-			for _, st := range f.Decl.Body.List[:len(f.Decl.Body.List)-1] {
-				switch st.(type) {
-				case *ast.AssignStmt, *ast.ExprStmt, *ast.DeclStmt:
-				default:
-					straight = false
-				}
-			}
-			return straight && IsPanicCall(f.Pkg.TypesInfo, f.Decl.Body.List[len(f.Decl.Body.List)-1])
-		}
+		return m.neverReturns(fn.Origin(), 0)
 	}
 	return false
+}
+
+// neverReturns: a module function (not an interface method) without any return
+// statement whose body cannot fall off its end: the last statement is a panic,
+// a call of another such function, or an if/else (switch with default) whose
+// every branch ends that way. log.Panic*/log.Fatal*/os.Exit count as well.
+func (m *tblModel) neverReturns(fn *types.Func, depth int) bool {
+	if fn.Pkg() != nil && !strings.HasPrefix(fn.Pkg().Path(), ModPath) {
+		switch fn.Pkg().Path() + "." + fn.Name() {
+		case "os.Exit", "log.Panic", "log.Panicf", "log.Panicln", "log.Fatal", "log.Fatalf", "log.Fatalln", "runtime.Goexit":
+			return true
+		}
+		return false
+	}
+	f := m.fns[fn]
+	if f == nil || depth > 3 || len(f.Decl.Body.List) == 0 {
+		return false
+	}
+	if sig, ok := fn.Type().(*types.Signature); ok && sig.Recv() != nil {
+		if _, isI := types.Unalias(sig.Recv().Type()).Underlying().(*types.Interface); isI {
+			return false
+		}
+	}
+	hasReturn := false
+	ast.Inspect(f.Decl.Body, func(n ast.Node) bool {
+		switch n.(type) {
+		case *ast.FuncLit:
+			return false
+		case *ast.ReturnStmt:
+			hasReturn = true
+		}
+		return true
+	})
+	if hasReturn {
+		return false
+	}
+	info := f.Pkg.TypesInfo
+	var diverges func(list []ast.Stmt) bool
+	diverges = func(list []ast.Stmt) bool {
+		if len(list) == 0 {
+			return false
+		}
+		switch x := list[len(list)-1].(type) {
+		case *ast.ExprStmt:
+			if IsPanicCall(info, x) {
+				return true
+			}
+			if call, ok := ast.Unparen(x.X).(*ast.CallExpr); ok {
+				if cf := CalleeOf(info, call); cf != nil && cf.Origin() != fn {
+					return m.neverReturns(cf.Origin(), depth+1)
+				}
+			}
+		case *ast.BlockStmt:
+			return diverges(x.List)
+		case *ast.IfStmt:
+			if x.Else == nil || !diverges(x.Body.List) {
+				return false
+			}
+			switch e := x.Else.(type) {
+			case *ast.BlockStmt:
+				return diverges(e.List)
+			case *ast.IfStmt:
+				return diverges([]ast.Stmt{e})
+			}
+		case *ast.SwitchStmt:
+			hasDefault := false
+			for _, c := range x.Body.List {
+				cc := c.(*ast.CaseClause)
+				if cc.List == nil {
+					hasDefault = true
+				}
+				if !diverges(cc.Body) {
+					return false
+				}
+			}
+			return hasDefault
+		}
+		return false
+	}
+	// a break/goto inside could leave a diverging construct early: keep to bodies without them
+	plain := true
+	ast.Inspect(f.Decl.Body, func(n ast.Node) bool {
+		switch x := n.(type) {
+		case *ast.FuncLit:
+			return false
+		case *ast.BranchStmt:
+			if x.Tok == token.BREAK || x.Tok == token.GOTO {
+				plain = false
+			}
+		}
+		return true
+	})
+	return plain && diverges(f.Decl.Body.List)
 }
 
 // tblTerminates: control never falls out of the end of the statement list.
